@@ -30,13 +30,13 @@ def crash_ops(alpha, tier):
         ("drop", "n"),
         ("get", ("cmp", "tags", ("a",), "==", x), None),                     # early-stopping read
         ("len",),                                                            # would populate a length cache
+        ("reopen",),                                                         # close (its I/O can fail too) + open
     ]
     if tier != "quick":
         ops += [
             ("insert", "P7", None, True, "db"),                 # compact prefixes, line break in a value
             ("insert_multiple", ("P0", "P4", "P5"), None, False, "db"),
             ("update", ("cmp", "time", (), "<=", t[1]), W.mkspec(time=("fn", "t_swap")), None, "db"),
-            ("reopen",),
         ]
     return ops
 
@@ -89,6 +89,9 @@ class C12(E1Check):
             {"name": "csv/auto", "storage": "csv", "auto_index": True},
             {"name": "csv/manual", "storage": "csv", "auto_index": False},
         ]
+        # the database path is a symbolic link (a "write through the link" special case would not be atomic)
+        cfgs.append({"name": "csv/auto/symlinked-path", "storage": "csv", "auto_index": True, "symlink": True,
+                     "D": 3 if self.tier == "quick" else 4})
         # a run of twelve single appends with nothing in between (a grouped / deferred commit would show here)
         run = tuple(("insert", "G%d" % i, None, False, "db") for i in range(12))
         cfgs.append({"name": "csv/auto/after-12-appends", "storage": "csv", "auto_index": True, "N": 20, "D": 2, "init": run})
